@@ -64,6 +64,22 @@ theorem source_kind_irrelevant (tokenise : Source → List Tok) (s₁ s₂ : Sou
 example : ∃ (tokenise : Source → List Tok), tokenise (.bytes [60, 114, 47, 62]) = tokenise (.str "<r/>".toList) :=
   ⟨fun _ => [.start "r".toList [] .passed, .end "r".toList none none], rfl⟩
 
+/-- **iterwalk_partial** (ElementTree sources; partial as above): the event stream `iterwalk`
+makes up is the stream of the same tree carrying one invented declaration per namespaced
+element, so the handler passes the in-scope bindings of *those* declarations — every element's
+own namespace is bound, the prefixes of the original document are not (QName-valued content and
+`xsi:type` cannot be resolved from an ElementTree source). -/
+theorem iterwalk_partial (wk : List (Str × Str)) (t : XTree) (h : t.allPassed = true) :
+    (nativeParseTree wk t).map PEv.view = spec [] (redecl wk t []).1 := by
+  unfold nativeParseTree
+  rw [(iterwalk_eq_toks wk t []).1]
+  exact native_nsmap_inscope_partial _ (by rw [allPassed_redecl]; exact h)
+
+example : nativeParseTree [] (.node [("p".toList, "urn:a".toList)] "{urn:a}r".toList [] .passed none [] none)
+    = [.registerNs (some "ns0".toList) "urn:a".toList,
+       .start "{urn:a}r".toList [] [(some "ns0".toList, "urn:a".toList)],
+       .end "{urn:a}r".toList none none] := rfl
+
 /-! ## writers: indentation -/
 
 /-- **indent_adds_only_ws**: for every event list, every prefix map and every `indent`, the handler
@@ -86,6 +102,41 @@ theorem indent_adds_only_ws (m : NsMap) (isDt : Str → Bool) (indent : Option S
     rw [hsf]
     simp only []
     rw [he, hout]
+
+/-- **writers_agree_flat**: without indentation (`indent` is `None` or `""`) the native writer,
+the lxml writer and the tree serializer denote the same infoset for every event list (they make
+the same handler calls; that lxml's `ElementTreeContentHandler` and a reader of `XMLGenerator`'s
+text both build `saxTree` of those calls is the correspondence part). -/
+theorem writers_agree_flat (e : Env) (isDt : Str → Bool) (indent : Option Str) (evs : List Ev)
+    (hi : indentOn indent = none) :
+    nativeTree isDt indent evs = lxmlTree e isDt indent evs := by
+  unfold nativeTree lxmlTree eventsTree
+  simp only [hi]
+  have hA := indent_adds_only_ws (prefixMap (collectUris evs)) isDt indent evs
+  cases hI : eventsSaxIndent (prefixMap (collectUris evs)) isDt indent evs with
+  | error x =>
+    rw [hI] at hA
+    simp only [] at hA
+    rw [← hA]
+    simp [bind, Except.bind]
+  | ok calls =>
+    rw [hI] at hA
+    simp only [] at hA
+    have hflat : calls = (eraseWs calls).map ISax.sax := by
+      unfold eventsSaxIndent at hI
+      cases hf : evs.foldlM (IState.step (prefixMap (collectUris evs)) isDt indent) {} with
+      | error x => rw [hf] at hI; cases hI
+      | ok sf =>
+        rw [hf] at hI
+        cases hI
+        have := run_flat _ isDt indent hi evs {} sf rfl hf
+        rw [this, eraseWs_map_sax]
+    rw [← hA]
+    simp only [bind, Except.bind]
+    rw [hflat, renderDoc_map_sax, eraseWs_map_sax]
+    cases saxTree (prefixMap (collectUris evs)) (eraseWs calls) [] none <;> rfl
+
+example : indentOn (some []) = none ∧ indentOn none = none := ⟨rfl, rfl⟩
 
 /-- Full-strength statement ("indentation aside"): up to layout (whitespace-only character runs that
 are not the whole content of a leaf element) the indented stream is the un-indented stream. -/
@@ -145,5 +196,18 @@ example : eventsSaxIndent [] (fun _ => false) (some "  ".toList)
     = .ok [.sax (.open "r".toList []), .ws "\n".toList, .ws "  ".toList, .sax (.open "a".toList []),
            .sax (.chars "x".toList), .sax (.close "a".toList), .ws "\n".toList, .ws [],
            .sax (.close "r".toList), .ws "\n".toList] := rfl
+
+/-- **lxml_indent_ws_only**: `etree.indent` (as modelled) changes nothing but layout: for every
+tree, whitespace indent string and level, the result equals the input once whitespace-only text
+of elements with children and whitespace-only tails are dropped. Holds for mixed content too —
+lxml leaves non-whitespace text and tails alone, which is where it parts from the native writer. -/
+theorem lxml_indent_ws_only (e : Env) (space : Str) (h : space.all e.isSpace = true) (t : Tree) :
+    stripLayout e (lxmlIndent e space t) = stripLayout e t :=
+  stripLayout_indentNode e space h 1 t
+
+example : lxmlIndent Env.ascii "  ".toList
+    (.node "m".toList [] [] (some "t".toList) [.node "a".toList [] [] none [] none, .node "b".toList [] [] none [] none] none)
+    = .node "m".toList [] [] (some "t".toList)
+        [.node "a".toList [] [] none [] (some "\n  ".toList), .node "b".toList [] [] none [] (some "\n".toList)] none := rfl
 
 end Props.C08
